@@ -149,6 +149,11 @@ def check(ctx):
   put_args_rules(ctx)
   fresh_per_entry(ctx)
   router_answers(ctx)
+  endpoint_value_object(ctx)
+  from . import c13 as _c13
+  ctx.rule('C13.R3', 'shared with C13: the Kafka transport inherits the mux send loop, which is the only writer of the connection (a request written from the calling greenlet lands '
+                     'inside a half-written request of another caller: sizes and CRCs no longer delimit the byte stream)')
+  _c13.single_writer(ctx, 'C13.R3')
   from . import c14
   ctx.rule('C14.R2', 'shared with C14: the read-exactly-N loops under the receive loop ask for what is still missing and advance by what was received (a loop that asks for the whole size again '
                      'swallows the size prefix and body of the responses pipelined behind a frame that arrived in pieces: those replies are never delivered)')
@@ -159,6 +164,38 @@ def check(ctx):
   from . import c02
   ctx.rule('C02.R4', 'shared with C02: the Kafka transport inherits the mux receive loop: every response frame is decoded from a stream of its own and routed by the correlation id read from it')
   c02.r4(ctx)
+
+
+def endpoint_value_object(ctx):
+  """KafkaEndpoint carries (host, port, partition_id) exactly as constructed: the partition written into the produce request is endpoint.partition_id."""
+  prog = ctx.prog
+  m = prog.module(KS)
+  why = ('the partition id of the request is read from the endpoint the balancer selected; a constructor that normalises its arguments (`partition_id or DEFAULT`) '
+         'turns the legitimate partition 0 into the default and the request names another partition')
+  cls = None
+  for st in m.tree.body:
+    if isinstance(st, ast.ClassDef) and st.name == 'KafkaEndpoint':
+      cls = st
+  if cls is None:
+    ok = any(isinstance(st, ast.Assign) and U(st.targets[0]) == 'KafkaEndpoint' and isinstance(st.value, ast.Call) and U(st.value.func).split('.')[-1] == 'namedtuple'
+             for st in m.tree.body)
+    ctx.ob('C15.R5', KS + ':0', 'KafkaEndpoint is a plain (host, port, partition_id) tuple', ok, 'KafkaEndpoint is no longer a namedtuple', why)
+    return
+  bad = []
+  for fn in cls.body:
+    if isinstance(fn, ast.FunctionDef) and fn.name in ('__new__', '__init__'):
+      ps = [a.arg for a in fn.args.posonlyargs + fn.args.args][1:]
+      stored = [U(n) for n in ast.walk(fn) if isinstance(n, ast.Name) and isinstance(n.ctx, ast.Store) and n.id in ps]
+      if stored:
+        bad.append('%s rebinds %s' % (fn.name, sorted(set(stored))))
+      for c in ast.walk(fn):
+        if isinstance(c, ast.Call) and isinstance(c.func, ast.Attribute) and c.func.attr in ('__new__', '__init__'):
+          args = [U(a) for a in c.args if U(a) not in ('cls', 'self')] + ['%s=%s' % (k.arg, U(k.value)) for k in c.keywords]
+          if [a.split('=')[-1] for a in args] != ps:
+            bad.append('%s passes %s for %s' % (fn.name, args, ps))
+    elif isinstance(fn, ast.FunctionDef) and fn.name in ('__getattribute__', '__getattr__', '__getitem__', '__iter__'):
+      bad.append('%s overridden' % fn.name)
+  ctx.ob('C15.R5', KS + ':%d' % cls.lineno, 'KafkaEndpoint is a plain (host, port, partition_id) tuple', not bad, '; '.join(bad), why)
 
 
 def put_args_rules(ctx):
